@@ -393,6 +393,7 @@ func (mc *c08Machine) run(hist []c08Op) {
 	var real [2]Table
 	var model [2]c08M
 	model[0].empty, model[1].empty = true, true
+	origin := [2]int{-1, -1} // id of the default table a register was last fetched from (-1: computed value)
 	describe := func(upto int) string {
 		var parts []string
 		for _, o := range hist[:upto+1] {
@@ -440,20 +441,24 @@ func (mc *c08Machine) run(hist []c08Op) {
 			switch op.kind {
 			case c08Get:
 				real[r] = GetCodonTable(op.id)
+				origin[r] = op.id
 			case c08Rw:
 				real[r] = real[r].OptimizeTable(mc.seqs[op.seq])
 			case c08Add:
 				real[r] = AddCodonTable(real[r], real[o])
+				origin[r] = -1
 			case c08Comp:
 				res, err := CompromiseCodonTable(real[r], real[o], op.cut)
 				if err != nil {
 					panic("unexpected error: " + err.Error())
 				}
 				real[r] = res
+				origin[r] = -1
 			case c08Ser:
 				p := filepath.Join(mc.tmp, "t.json")
 				WriteCodonJSON(real[r], p)
 				real[r] = ReadCodonJSON(p)
+				origin[r] = -1
 			}
 		})
 		if !ok {
@@ -480,7 +485,20 @@ func (mc *c08Machine) run(hist []c08Op) {
 		}
 		model[r] = want
 		// a freshly requested default table is pristine
+		// (the default table a re-weighted register was fetched from is looked at last, so that a change
+		// of any other default table is reported as what it is)
+		order := make([]int, 0, len(mc.fresh))
 		for _, id := range mc.fresh {
+			if id != origin[r] {
+				order = append(order, id)
+			}
+		}
+		for _, id := range mc.fresh {
+			if id == origin[r] {
+				order = append(order, id)
+			}
+		}
+		for _, id := range order {
 			f, problem := c08Norm(GetCodonTable(id))
 			if problem != "" || f != mc.prist[id] {
 				if problem == "" {
@@ -489,6 +507,9 @@ func (mc *c08Machine) run(hist []c08Op) {
 				class := "default-table-changed"
 				if op.kind == c08Rw {
 					class = "default-table-mutated-by-reweighting"
+					if id != origin[r] {
+						class = "other-default-table-mutated-by-reweighting"
+					}
 				}
 				v.Fail(class, describe(step)+fmt.Sprintf("; then GetCodonTable(%d)", id), fmt.Sprintf("fresh table %d: %s", id, problem))
 				return
@@ -670,7 +691,7 @@ func TestVerifC08(t *testing.T) {
 		exhaustTo, sampled = 5, 250000
 	}
 	vH := newVerifRun("C08", "transform/codon.GetCodonTable/post/pristine-after-history",
-		fmt.Sprintf("two table registers A, B (initially empty); exhaustive: every operation sequence of length 1..%d over %d operations {A|B=GetCodonTable(1|11), A|B re-weighted with ATGATGATG | a sequence with every codon, A=AddCodonTable(A,B), A=CompromiseCodonTable(A,B,0.1), A=ReadCodonJSON(WriteCodonJSON(A))}; sampled: %d sequences of length 5..8 over %d operations (ids 1,2,4,11,12,33; 5 sequences incl. lower case, non-ACGT, length not divisible by 3, empty; add/compromise/serialise on either register; cut-offs 0, 0.1, 0.3); an operation whose precondition fails in the model (empty operand, different codes, an amino acid with total weight 0 for compromise) is left out; after every step: the result equals the model's result computed from the model's argument values, a freshly requested table for each of ids 1, 11, 3 (sampled: all six + 3) equals NCBI's code with weight 1 everywhere, the other register still equals its model value; each history starts from default weights put back to 1; a history stops at its first violation; non-trivial = at least one re-weighting executed", exhaustTo, len(small), sampled, len(large)))
+		fmt.Sprintf("two table registers A, B (initially empty); exhaustive: every operation sequence of length 1..%d over %d operations {A|B=GetCodonTable(1|11), A|B re-weighted with ATGATGATG | a sequence with every codon, A=AddCodonTable(A,B), A=CompromiseCodonTable(A,B,0.1), A=ReadCodonJSON(WriteCodonJSON(A))}; sampled: %d sequences of length 5..8 over %d operations (ids 1,2,4,11,12,33; 5 sequences incl. lower case, non-ACGT, length not divisible by 3, empty; add/compromise/serialise on either register; cut-offs 0, 0.1, 0.3); an operation whose precondition fails in the model (empty operand, different codes, an amino acid with total weight 0 for compromise) is left out; after every step: the result equals the model's result computed from the model's argument values, a freshly requested table for each of ids 1, 11, 3 (sampled: all six + 3) equals NCBI's code with weight 1 everywhere (ids other than the one the re-weighted register was fetched from are looked at first), the other register still equals its model value; each history starts from default weights put back to 1; a history stops at its first violation; non-trivial = at least one re-weighting executed", exhaustTo, len(small), sampled, len(large)))
 	mc := &c08Machine{v: vH, seqs: seqs, counts: counts, fresh: []int{1, 11, 3}, prist: prist, tmp: t.TempDir()}
 	hist := make([]c08Op, 0, 8)
 	var rec func(n int)
